@@ -243,12 +243,18 @@ def run(ctx):
                        "prefix = one case = 4 real Write+Close; hpint: every HPACK integer field (index of the 4 representations, name/value length plain and "
                        "Huffman, table size update) x value class {0, max valid, +1, 2^31-1, 2^31, 2^32-1, 2^32, 2^62, 2^63-1, 2^63, 2^63+2^n-2, ten continuation "
                        "bytes} x dynamic table {empty, 2 entries, full} x {bare decoder with/without string limit, server-side framer, client-side framer}; "
-                       "fval: WINDOW_UPDATE increments and SETTINGS values {0,1,2^31-1,2^31,2^32-1} on both framers; e2e: every poison of the menu of Containment.tla (66: bolt, a panicking codec plug-in, dubbo-thrift, "
-                       "HTTP/1, HTTP/2; downstream and upstream side) on its own connection of a real MOSN next to probe connections")
+                       "fval: WINDOW_UPDATE increments and SETTINGS values {0,1,2^31-1,2^31,2^32-1} on both framers; slist: SETTINGS frames naming an identifier "
+                       "1-3 times (every id, legal/absurd values in every order, mixed ids; 102 lists) through the real MServerConn and MClientConn "
+                       "(ReadFrame + HandleFrame), followed by a 4000-byte message the connection has to send; e2e: every poison of the menu of Containment.tla (85: bolt, a panicking codec plug-in, dubbo-thrift, "
+                       "HTTP/1, HTTP/2; downstream and upstream side) on its own connection of a real MOSN next to probe connections; after every HTTP/2 poison that left "
+                       "the connection open a follow-up request for a 4 KB response on the same connection, after every upstream-side HTTP/2 poison a "
+                       "follow-up to a path the upstream answers properly; processor time of the idle process at the end")
     ctx.cov["exhaustive"] = True
     ctx.assumptions += ["decoders are called as the stream layer calls them (fresh buffer-pool context, IoBuffer over the received bytes)",
                         "allocation is measured with runtime/metrics around the call; bound 1 MiB + 16 bytes per supplied byte",
                         "a decoder call that has not returned after 20 s or keeps growing the heap beyond 200 MB is a loop",
                         "e2e: a peer that saw neither bytes nor a close for 8 s calls its connection silent; gauges get 10 s to settle",
+                        "e2e: a follow-up request that is neither served nor refused within 8 s (or answered 504 by the proxy's own timeout) hangs; "
+                        "an idle process that uses more than half a core for 1.5 s spins (goroutine dumps name the function)",
                         "e2e: announced HTTP/1 body sizes are sent one at a time; memory = what the whole process allocated meanwhile, bound 64 MiB; "
                         "after one over-allocation the rest of that family (Content-Length / chunk size, each side) is not sent"]
